@@ -424,7 +424,7 @@ def _compare_analytic(spec, tape, res, order, feats):
         what = f"{m} tableau={spec['tableau']} check={spec['check']} dev_wires={spec.get('dev_wires')} ops={spec['ops']}"
         f2 = {**feats, "mp": m["mp"]}
         pre = "idle-tail:" if feats.get("idle_tail") else ("stateprep:" if feats.get("stateprep") else "")
-        if name == "ProbabilityMP" and not spec["tableau"] and _unsorted_int(tape):
+        if name == "ProbabilityMP" and (not spec["tableau"] or not len(mp.wires)) and _unsorted_int(tape):
             pre = "probs-unsorted:"
             f2["probs_unsorted"] = True
         if feats.get("projector_no_tableau") and m["mp"] == "expval" and m["obs"]["op"] == "Projector":
